@@ -107,6 +107,16 @@ def iter_next(I, st, it, fr=None):
         if n <= 0:
             return [(st, it, None)]
         return [(s2, mk_iter('take', inner2, n - 1), item) for (s2, inner2, item) in iter_next(I, st, inner, fr)]
+    if kind == 'zip':
+        a, b = it.fields[1], it.fields[2]
+        res = []
+        for (s2, a2, x) in iter_next(I, st, a, fr):
+            if x is None:
+                res.append((s2, mk_iter('zip', a2, b), None))
+                continue
+            for (s3, b2, y) in iter_next(I, s2, b, fr):
+                res.append((s3, mk_iter('zip', a2, b2), None if y is None else Agg('()', (x, y))))
+        return res
     if kind == 'chain':
         a, b = it.fields[1], it.fields[2]
         res = []
@@ -147,7 +157,7 @@ def as_iter(I, st, v):
         tgt = I.read(st, v.cell, v.path)
         if is_coll(tgt, 'Vec', 'VecDeque', '[]', 'HashSet'):
             return mk_iter('list', Agg('()', [Ref(v.cell, v.path + (i,), v.mut) for i in range(len(tgt.fields))]), 0)
-        if is_coll(tgt, 'HashMap'):
+        if is_coll(tgt, 'HashMap', 'BTreeMap'):
             return mk_iter('list', Agg('()', [Agg('()', (Ref(v.cell, v.path + (i, 0)), Ref(v.cell, v.path + (i, 1), v.mut))) for i in range(len(tgt.fields))]), 0)
         if isinstance(tgt, Agg) and tgt.ty == 'It':
             return tgt
@@ -156,7 +166,7 @@ def as_iter(I, st, v):
         raise Unmodelled('into_iter of reference to %r' % (tgt,))
     if is_coll(v, 'Vec', 'VecDeque', '[]', 'HashSet'):
         return mk_iter('list', Agg('()', v.fields), 0)
-    if is_coll(v, 'HashMap'):
+    if is_coll(v, 'HashMap', 'BTreeMap'):
         return mk_iter('list', Agg('()', v.fields), 0)
     if isinstance(v, Enum) and v.ty == 'Option':
         return mk_iter('list', Agg('()', v.fields if v.variant == 'Some' else ()), 0)
@@ -492,34 +502,56 @@ def install(I):
         res.append((cur, None))
         return res
 
-    @M(r'^HashMap::<.*>::insert$|^BTreeMap::<.*>::insert$', 'HashMap::insert')
+    @M(r'^HashMap::<.*>::insert$|^BTreeMap::<.*>::insert$', 'HashMap / BTreeMap::insert (BTreeMap entries are kept in key order)')
     def m_map_insert(I, st, f, args, fr):
         r = args[0]
-        m = norm_coll(I.read(st, r.cell, r.path), 'HashMap')
+        kind = 'BTreeMap' if 'BTreeMap' in f.split('::<')[0] else 'HashMap'
+        m = norm_coll(I.read(st, r.cell, r.path), kind)
         outs = []
         for s2, idx in map_find(I, st, m, args[1]):
-            if idx is None:
+            if idx is None and kind == 'BTreeMap':
+                # position: before the first entry with a greater key
+                cur = s2
+                placed = False
+                for i, e in enumerate(m.fields):
+                    lt, _eq = cmp_terms(I, cur, args[1], e.fields[0])
+                    nxt = None
+                    for s3, less in branch(I, cur, lt):
+                        if less:
+                            I.write(s3, r.cell, r.path, Agg('BTreeMap', m.fields[:i] + (Agg('()', (args[1], args[2])),) + m.fields[i:]))
+                            outs.append(Outcome(s3, 'ret', NONE))
+                        else:
+                            nxt = s3
+                    if nxt is None:
+                        placed = True
+                        break
+                    cur = nxt
+                if not placed:
+                    I.write(cur, r.cell, r.path, Agg('BTreeMap', m.fields + (Agg('()', (args[1], args[2])),)))
+                    outs.append(Outcome(cur, 'ret', NONE))
+            elif idx is None:
                 I.write(s2, r.cell, r.path, Agg('HashMap', m.fields + (Agg('()', (args[1], args[2])),)))
                 outs.append(Outcome(s2, 'ret', NONE))
             else:
                 old = m.fields[idx].fields[1]
                 nf = list(m.fields)
                 nf[idx] = Agg('()', (m.fields[idx].fields[0], args[2]))
-                I.write(s2, r.cell, r.path, Agg('HashMap', nf))
+                I.write(s2, r.cell, r.path, Agg(kind, nf))
                 outs.append(Outcome(s2, 'ret', some(old)))
         return outs
 
     @M(r'^HashMap::<.*>::remove(::<.*>)?$|^BTreeMap::<.*>::remove(::<.*>)?$', 'HashMap::remove')
     def m_map_remove(I, st, f, args, fr):
         r = args[0]
-        m = norm_coll(I.read(st, r.cell, r.path), 'HashMap')
+        kind = 'BTreeMap' if 'BTreeMap' in f.split('::<')[0] else 'HashMap'
+        m = norm_coll(I.read(st, r.cell, r.path), kind)
         key = rd(I, st, args[1])
         outs = []
         for s2, idx in map_find(I, st, m, key):
             if idx is None:
                 outs.append(Outcome(s2, 'ret', NONE))
             else:
-                I.write(s2, r.cell, r.path, Agg('HashMap', m.fields[:idx] + m.fields[idx + 1:]))
+                I.write(s2, r.cell, r.path, Agg(kind, m.fields[:idx] + m.fields[idx + 1:]))
                 outs.append(Outcome(s2, 'ret', some(m.fields[idx].fields[1])))
         return outs
 
@@ -579,7 +611,7 @@ def install(I):
         I.write(st, mr.cell, mr.path, Agg('HashMap', m.fields + (Agg('()', (key, I.mk_int(0, mm.group(1)))),)))
         return I.ret(st, Ref(mr.cell, mr.path + (len(m.fields), 1), True))
 
-    @M(r'^HashMap::<.*>::contains_key(::<.*>)?$|^HashSet::<.*>::contains(::<.*>)?$', 'contains_key')
+    @M(r'^HashMap::<.*>::contains_key(::<.*>)?$|^BTreeMap::<.*>::contains_key(::<.*>)?$|^HashSet::<.*>::contains(::<.*>)?$', 'contains_key')
     def m_map_contains(I, st, f, args, fr):
         r = args[0]
         m = norm_coll(I.read(st, r.cell, r.path), 'HashMap')
@@ -624,7 +656,54 @@ def install(I):
         m = norm_coll(I.read(st, r.cell, r.path), 'HashMap')
         return I.ret(st, mk_iter('list', Agg('()', [Ref(r.cell, r.path + (i, 0)) for i in range(len(m.fields))]), 0))
 
-    @M(r'^HashMap::<.*>::(iter|iter_mut)$', 'HashMap::iter')
+    @M(r'^BTreeMap::<.*>::(pop_first|pop_last)$', 'BTreeMap::pop_first / pop_last (entries are kept in key order)')
+    def m_btree_pop(I, st, f, args, fr):
+        r = args[0]
+        m = norm_coll(I.read(st, r.cell, r.path), 'BTreeMap')
+        if not m.fields:
+            return I.ret(st, NONE)
+        first = f.endswith('pop_first')
+        e = m.fields[0] if first else m.fields[-1]
+        I.write(st, r.cell, r.path, Agg('BTreeMap', m.fields[1:] if first else m.fields[:-1]))
+        return I.ret(st, some(Agg('()', (e.fields[0], e.fields[1]))))
+
+    @M(r'^BTreeMap::<.*>::range(::<.*>)?$', 'BTreeMap::range (entries in key order within the bounds)')
+    def m_btree_range(I, st, f, args, fr):
+        r = args[0]
+        m = norm_coll(I.read(st, r.cell, r.path), 'BTreeMap')
+        b = args[1]
+        if not (isinstance(b, Agg) and len(b.fields) == 2):
+            raise Unmodelled('BTreeMap::range with %r' % (b,))
+
+        def bound(x):
+            name = x.variant if isinstance(x, Enum) else x.ty.split('::')[-1]
+            return name, (x.fields[0] if x.fields else None)
+        lo, hi = bound(b.fields[0]), bound(b.fields[1])
+        if hi[0] != 'Unbounded':
+            raise Unmodelled('BTreeMap::range upper bound ' + hi[0])
+        outs = []
+        cur = st
+        # entries are sorted: the range starts at the first entry inside the lower bound
+        for i, e in enumerate(m.fields):
+            if lo[0] == 'Unbounded':
+                inside = z3.BoolVal(True)
+            else:
+                lt, eq = cmp_terms(I, cur, lo[1], e.fields[0])
+                inside = lt if lo[0] == 'Excluded' else z3.Or(lt, eq)
+            nxt = None
+            for s3, yes in branch(I, cur, inside):
+                if yes:
+                    items = [Agg('()', (Ref(r.cell, r.path + (j, 0)), Ref(r.cell, r.path + (j, 1)))) for j in range(i, len(m.fields))]
+                    outs.append(Outcome(s3, 'ret', mk_iter('list', Agg('()', items), 0)))
+                else:
+                    nxt = s3
+            if nxt is None:
+                return outs
+            cur = nxt
+        outs.append(Outcome(cur, 'ret', mk_iter('list', Agg('()', ()), 0)))
+        return outs
+
+    @M(r'^HashMap::<.*>::(iter|iter_mut)$|^BTreeMap::<.*>::(iter|iter_mut)$', 'HashMap::iter')
     def m_map_iter(I, st, f, args, fr):
         return I.ret(st, as_iter(I, st, Ref(args[0].cell, args[0].path, f.endswith('_mut'))))
 
@@ -680,6 +759,28 @@ def install(I):
         if n is None:
             raise Unmodelled('symbolic take(n)')
         return I.ret(st, mk_iter('take', as_iter(I, st, args[0]), n))
+
+    @M(r'^<.* as Iterator>::zip(::<.*>)?$', 'Iterator::zip (stops at the shorter side)')
+    def m_zip(I, st, f, args, fr):
+        return I.ret(st, mk_iter('zip', as_iter(I, st, args[0]), as_iter(I, st, args[1])))
+
+    @M(r'^<.* as Iterator>::fold(::<.*>)?$', 'Iterator::fold')
+    def m_fold(I, st, f, args, fr):
+        outs = []
+        for (s2, items) in drain_all(I, st, as_iter(I, st, args[0]), fr):
+            states = [(s2, args[1])]
+            for item in items:
+                nxt = []
+                for (s3, acc) in states:
+                    ccell = s3.alloc(args[2])
+                    for o in I.call_callable(s3, Ref(ccell, (), True), [acc, item], fr):
+                        if o.kind != 'ret':
+                            outs.append(o)
+                        else:
+                            nxt.append((o.st, o.val))
+                states = nxt
+            outs.extend(Outcome(s3, 'ret', acc) for (s3, acc) in states)
+        return outs
 
     @M(r'^<.* as Iterator>::chain', 'Iterator::chain')
     def m_chain(I, st, f, args, fr):
